@@ -246,6 +246,8 @@ func (s *Server) createConn(connection *coapNet.Conn, inactivityMonitor udpClien
 	cfg.GetToken = s.cfg.GetToken
 	cfg.MessagePool = s.cfg.MessagePool
 	cfg.ReceivedMessageQueueSize = s.cfg.ReceivedMessageQueueSize
+	cfg.LimitClientParallelRequests = s.cfg.LimitClientParallelRequests
+	cfg.LimitClientEndpointParallelRequests = s.cfg.LimitClientEndpointParallelRequests
 	cfg.ProcessReceivedMessage = s.cfg.ProcessReceivedMessage
 
 	cc := udpClient.NewConnWithOpts(
